@@ -277,7 +277,7 @@ def proof_stage(mod, res, tier):
 _NATLIST = re.compile(r"=\s*(\[[^\]]*\]|nil)\s*:\s*list nat", re.S)
 
 
-def coq_eval(mod, cases_obs, tag="t", want_outputs=False, shard=300, timeout=900):
+def coq_eval(mod, cases_obs, tag="t", want_outputs=False, shard=300, timeout=2400):
     """cases_obs: list of (case, impl_obs).  Returns (mismatch_idx, failure_idx, err, outputs)."""
     if not cases_obs:
         return [], [], None, {}
